@@ -30,18 +30,18 @@ type c09Payer struct{ Role, Prov string }
 
 type c09Method struct {
 	Contract, Ctor, Type, AbiName, IdSrc string
-	Readonly                           bool
-	ReadonlyKnown                      bool
-	RequiredGas                        int
-	NativeCalls                        int
-	KeeperInside, KeeperOutside        []string
-	ForeignCtxInside, OuterCtx         int
-	LogsInside, LogsOutside            int
-	ErrPropagated                      bool
-	Swallowed                          int
-	Payers                             []c09Payer
-	Unknown                            []string
-	Where                              string
+	Readonly                             bool
+	ReadonlyKnown                        bool
+	RequiredGas                          int
+	NativeCalls                          int
+	KeeperInside, KeeperOutside          []string
+	ForeignCtxInside, OuterCtx           int
+	LogsInside, LogsOutside              int
+	ErrPropagated                        bool
+	Swallowed                            int
+	Payers                               []c09Payer
+	Unknown                              []string
+	Where                                string
 }
 
 type c09Helper struct {
@@ -374,7 +374,6 @@ func leanStrs(xs []string) string {
 	return leanList(ys)
 }
 
-
 func goModCache() string {
 	if v := os.Getenv("GOMODCACHE"); v != "" {
 		return v
@@ -422,6 +421,8 @@ func (c *ctxT) depDir(mod string) string {
 func extractC09(c *ctxT) {
 	var methods []c09Method
 	var helpers []c09Helper
+	var runFacts []c09RunFacts
+	var dispGuards []string
 	var sb strings.Builder
 	sb.WriteString("namespace FxVerif.Gen.C09\n\n")
 	sb.WriteString(`structure Method where
@@ -597,6 +598,7 @@ structure Dispatcher where
 			if run := method(m.Type, "Run"); run != nil && run.Body != nil {
 				m.Where = c.pos(run)
 				c.c09AnalyzeRun(&m, run)
+				runFacts = append(runFacts, c.c09Run(pk.name, m.AbiName, run, decls))
 				for _, k := range m.KeeperInside {
 					m.LogsInside += helperLogs[k]
 				}
@@ -718,6 +720,26 @@ structure Dispatcher where
 			}
 		}
 		disps = append(disps, d)
+		// defer / recover() / panic in the dispatcher itself (a recover there would catch a panic that went through
+		// ExecuteNativeAction without restore or journal entry)
+		dg := [3]int{}
+		if drun != nil && drun.Body != nil {
+			ast.Inspect(drun.Body, func(x ast.Node) bool {
+				switch v := x.(type) {
+				case *ast.DeferStmt:
+					dg[0]++
+				case *ast.CallExpr:
+					switch calleeName(v) {
+					case "recover":
+						dg[1]++
+					case "panic":
+						dg[2]++
+					}
+				}
+				return true
+			})
+		}
+		dispGuards = append(dispGuards, fmt.Sprintf("(%s, %d, %d, %d)", leanStr(pk.name), dg[0], dg[1], dg[2]))
 	}
 
 	sb.WriteString("def methods : List Method := [\n")
@@ -755,6 +777,9 @@ structure Dispatcher where
 		sb.WriteString("\n")
 	}
 	sb.WriteString("]\n\n")
+	sb.WriteString(c09RunFactsLean(runFacts))
+	sb.WriteString("/-- per dispatcher (contract.go Run): number of defer statements, recover() calls, panic(...) calls -/\n")
+	sb.WriteString("def dispatcherDefers : List (String × Nat × Nat × Nat) := " + leanList(dispGuards) + "\n\n")
 
 	// PackRetErrV2 / PackRetError: do they hand the error back as second result?
 	packOk := map[string]bool{}
@@ -870,6 +895,7 @@ end FxVerif.Gen.C09
 	c.write("C09.lean", sb.String())
 	c.facts["C09.methods"] = methods
 	c.facts["C09.helpers"] = helpers
+	c.facts["C09.runFacts"] = runFacts
 	c.facts["C09.dispatchers"] = disps
 	c.facts["C09.forkReadonlyArg"] = kinds
 	c.facts["C09.forkDir"] = forkNote
